@@ -1,5 +1,6 @@
 import Dashu.Model.Int.PowBuf
 import Dashu.Proofs.Int.Memory
+import Dashu.Proofs.Int.MulPrim
 import Dashu.Proofs.Int.Pow
 import Dashu.Proofs.Int.MulCompose
 /-
@@ -271,7 +272,7 @@ theorem powDwordBaseBuf_spec (W : Nat) (hW : 4 ≤ W) (base exp : Nat) (hlt : ba
     (hexp : 2 ≤ exp) :
     ∃ b, powDwordBaseBuf W base exp = .ok b ∧ val W b.ws = base ^ exp ∧ IsWords W b.ws ∧
       b.ws.length ≤ 2 * exp ∧ b.cap = bufDefaultCapacity (2 * exp) := by
-  simp only [powDwordBaseBuf]
+  simp only [powDwordBaseBuf, mulAddCarryDword_eq, Nat.add_zero]
   have hcap0 := bufDefaultCapacity_ge (2 * exp)
   generalize hC : bufDefaultCapacity (2 * exp) = cap0 at hcap0 ⊢
   obtain ⟨sv, sw⟩ := spill_spec W (base * base) (Nat.mul_lt_mul'' hlt hlt)
